@@ -10,7 +10,7 @@ Open Scope N_scope.
 Record case := { k_scn : scenario;
                  k_picks : list endpoint;     (* resolution hints for the model (the endpoints the implementation returned) *)
                  k_obs : observation;
-                 k_flag : bool;               (* harness's evaluation of the finding predicate (C18-F4) *)
+                 k_flag : bool;               (* harness's evaluation of the finding predicate of C18-F4 *)
                  k_final : reply }.           (* SocksPort of the scripted Tor after the history *)
 
 Definition outcome_eqb (a b : outcome) : bool :=
